@@ -182,3 +182,32 @@ def is_ack_minus_one(f, e):
         consts = [a for a in al if const_val(a) == 0xFFFFFFFF]
         return len(subs) == 1 and len(consts) == 1
     return False
+
+
+def param_origins(F, fid, pidx, _seen=None):
+    """Where does parameter `pidx` (1-based) of function fid come from, over all call sites crate-wide?
+    Returns list of (caller id, block, expr) for origins that are not themselves plain parameters."""
+    if _seen is None:
+        _seen = set()
+    if (fid, pidx) in _seen:
+        return []
+    _seen.add((fid, pidx))
+    out = []
+    for (caller, bi) in F.callers(fid):
+        f = F.fn(caller)
+        t = f.blocks[bi]['term']
+        if t['k'] != 'call' or pidx - 1 >= len(t['args']):
+            out.append((caller, bi, ('?',)))
+            continue
+        a = f.arg(bi, pidx - 1)
+        for alt in alts(a):
+            p = peel(alt, unwraps=False)
+            if isinstance(p, tuple) and p[0] == 'param':
+                out += param_origins(F, caller, p[1], _seen)
+            else:
+                out.append((caller, bi, alt))
+    return out
+
+
+CLOCKS = r'^(std::time::SystemTime::now|std::time::Instant::now|chrono::Utc::now|chrono::Local::now|chrono::offset::\w+::now)$'
+NONDET = r'^(rand::|rand_core::|std::env::|std::fs::|std::thread::|std::process::|std::net::(TcpStream|UdpSocket|TcpListener)|std::os::|getrandom::|std::hash::RandomState::new|std::collections::hash_map::RandomState::new|std::ptr::.*addr|core::ptr::.*addr)'
